@@ -55,10 +55,26 @@ int fp2_upk(fp2_t c, const fp2_t a) {
 		RLC_TRY {
 			fp_new(t);
 
-			/* a_0^2 + a_1^2 = 1, thus a_1^2 = 1 - a_0^2. */
+			/* a_0^2 - qnr * a_1^2 = 1, thus a_1^2 = (a_0^2 - 1) / qnr. */
 			fp_sqr(t, a[0]);
 			fp_sub_dig(t, t, 1);
-			fp_neg(t, t);
+			if (fp_prime_get_qnr() == -1) {
+				fp_neg(t, t);
+			} else {
+				fp_t u;
+
+				fp_null(u);
+				fp_new(u);
+				if (fp_prime_get_qnr() < 0) {
+					fp_set_dig(u, -fp_prime_get_qnr());
+					fp_neg(u, u);
+				} else {
+					fp_set_dig(u, fp_prime_get_qnr());
+				}
+				fp_inv(u, u);
+				fp_mul(t, t, u);
+				fp_free(u);
+			}
 
 			/* a1 = sqrt(a_0^2). */
 			result = fp_srt(t, t);
@@ -93,7 +109,15 @@ void fp12_pck(fp12_t c, const fp12_t a) {
 }
 
 int fp12_upk(fp12_t c, const fp12_t a) {
+	if (fp12_is_zero(a)) {
+		/* The compressed form of the identity. */
+		fp12_set_dig(c, 1);
+		return 1;
+	}
 	if (fp2_is_zero(a[0][0]) && fp2_is_zero(a[1][1])) {
+		if (fp2_is_zero(a[1][0]) && fp2_is_zero(a[0][2])) {
+			return 0;
+		}
 		fp12_back_cyc(c, a);
 		if (fp12_test_cyc(c)) {
 			return 1;
